@@ -192,6 +192,72 @@ def _prune_constant_ifs(stmts):
     return out
 
 
+class _SubstName(ast.NodeTransformer):
+    def __init__(self, name, value):
+        self.name, self.value = name, value
+
+    def visit_Name(self, n):
+        if n.id == self.name and isinstance(n.ctx, ast.Load):
+            return ast.copy_location(copy.deepcopy(self.value), n)
+        return n
+
+
+def _simplify_bound_displays(prefix, body):
+    """After a call such as ``f(op, machines=(machine_id,))`` has been written
+    out: the parameter is bound to a tuple / list display, so
+
+    * ``if machines is None: ...`` (the default handling) is decided, and
+    * ``min(g(m) for m in machines)`` over a one-element display is ``g(x)``
+      (likewise ``max`` and, for numbers, ``sum``).
+
+    Only when the name is not stored again in the body."""
+    for pa in prefix:
+        if not (isinstance(pa, ast.Assign) and len(pa.targets) == 1 and isinstance(pa.targets[0], ast.Name) and isinstance(pa.value, (ast.Tuple, ast.List))):
+            continue
+        name = pa.targets[0].id
+        # (1) default handling at the top of the body
+        new = []
+        for st in body:
+            if (
+                isinstance(st, ast.If) and isinstance(st.test, ast.Compare) and len(st.test.ops) == 1
+                and isinstance(st.test.left, ast.Name) and st.test.left.id == name
+                and isinstance(st.test.comparators[0], ast.Constant) and st.test.comparators[0].value is None
+                and isinstance(st.test.ops[0], (ast.Is, ast.IsNot))
+                and not any(isinstance(x, ast.Name) and x.id == name and isinstance(x.ctx, ast.Store) for y in new for x in ast.walk(y))
+            ):
+                new += st.orelse if isinstance(st.test.ops[0], ast.Is) else st.body
+                continue
+            new.append(st)
+        body[:] = new
+        if any(isinstance(x, ast.Name) and x.id == name and isinstance(x.ctx, (ast.Store, ast.Del)) for y in body for x in ast.walk(y)):
+            continue
+        if len(pa.value.elts) != 1 or isinstance(pa.value.elts[0], ast.Starred):
+            continue
+        elem = pa.value.elts[0]
+        for y in body:
+            for par in ast.walk(y):
+                for fld, val in ast.iter_fields(par):
+                    vals = val if isinstance(val, list) else [val]
+                    for i, c in enumerate(vals):
+                        if not (
+                            isinstance(c, ast.Call) and isinstance(c.func, ast.Name) and c.func.id in ("min", "max", "sum")
+                            and len(c.args) == 1 and not c.keywords and isinstance(c.args[0], (ast.GeneratorExp, ast.ListComp))
+                        ):
+                            continue
+                        g = c.args[0]
+                        if len(g.generators) != 1 or g.generators[0].ifs or not isinstance(g.generators[0].target, ast.Name):
+                            continue
+                        it = g.generators[0].iter
+                        if not (isinstance(it, ast.Name) and it.id == name):
+                            continue
+                        rep = _SubstName(g.generators[0].target.id, elem).visit(copy.deepcopy(g.elt))
+                        rep = ast.copy_location(rep, c)
+                        if isinstance(val, list):
+                            val[i] = rep
+                        else:
+                            setattr(par, fld, rep)
+
+
 def _kwarg_only_forwarded(fnode, name: str) -> bool:
     """The ``**name`` parameter is used only as ``g(..., **name)``."""
     fwd = set()
@@ -445,9 +511,19 @@ class Normalizer:
         # public API that the pinned tree does not have (a later change added
         # it): no rule knows the name, so it is as transparent as a private
         # helper - existing code is often re-expressed through such additions
-        from .baseline_api import PUBLIC_CALLABLES
+        from .baseline_api import BASELINE_PARAMS, PUBLIC_CALLABLES
 
         key = (t.cls.name + "." if t.cls is not None else "") + t.name
+        # a call that uses a parameter the pinned signature does not have
+        # (a sibling re-expressed through a generalised function): the call
+        # means something no rule knows by name, so the callee is written out
+        bp = BASELINE_PARAMS.get(key)
+        if bp is not None and not private and "**" not in bp:
+            extra_kw = [k.arg for k in call.keywords if k.arg and k.arg not in bp]
+            n_pos = len([p_ for p_ in bp if p_ not in ("*", "**")]) - (1 if t.cls is not None and not t.is_static else 0)
+            extra_pos = "*" not in bp and len(call.args) > n_pos
+            if (extra_kw or extra_pos) and (same_cls or same_mod or True):
+                return t
         if (
             not private and not t.name.startswith("__") and t.parent is None and key not in PUBLIC_CALLABLES
             and not (t.decorators and not (t.is_static or t.is_classmethod))
@@ -612,9 +688,30 @@ class Normalizer:
                         n_._origin_path = getattr(call, "_origin_path", None) or fi.module.relpath  # type: ignore[attr-defined]
         ren = _Rename(mapping)
         body = [_BetaReduce().visit(ren.visit(x)) for x in body]
+        # an argument whose static type is not Optional decides `x is None`
+        # tests on the parameter it is substituted for (default handling of an
+        # optional parameter that this call does pass)
+        nonnull = set()
+        for p_, v_ in mapping.items():
+            if isinstance(v_, (ast.Name, ast.Attribute)) and p_ in t.params:
+                try:
+                    ty = self.ctx.types.type_of(fi.module, v_)
+                except Exception:  # pragma: no cover
+                    ty = None
+                if ty and "None" not in ty and "Any" not in ty and "Optional" not in ty and ty.startswith(("job_shop_lib.", "builtins.")):
+                    nonnull.add(ast.unparse(v_))
+        if nonnull:
+            for x in body:
+                for n_ in ast.walk(x):
+                    if isinstance(n_, ast.If) and isinstance(n_.test, ast.Compare) and len(n_.test.ops) == 1 and isinstance(n_.test.ops[0], (ast.Is, ast.IsNot)) \
+                            and isinstance(n_.test.comparators[0], ast.Constant) and n_.test.comparators[0].value is None \
+                            and ast.unparse(n_.test.left) in nonnull:
+                        n_.test = ast.copy_location(ast.Constant(value=isinstance(n_.test.ops[0], ast.IsNot)), n_.test)
         # flags passed as literals decide their branches (`if with_job_nodes:`
         # with with_job_nodes=False at this call)
         body = _prune_constant_ifs(body)
+        _simplify_bound_displays(prefix, body)
+        self._unroll_reflection(fi, prefix, body)
 
         def result_stmts(value, ret):
             if kind == "expr":
@@ -1131,6 +1228,7 @@ class Normalizer:
             return got
         node = copy.deepcopy(fi.node)
         if not isinstance(node, ast.Lambda):
+            self._specialise_new_params(fi, node)
             saved = getattr(self, "_caller_names", set())
             self._caller_names = {n.id for n in ast.walk(fi.node) if isinstance(n, ast.Name)} | set(fi.params)
             self._flat_root = node
@@ -1154,6 +1252,101 @@ class Normalizer:
         ff = FlatFunc(fi.qualname + ("#flat" if depth == 2 else f"#flat{depth}") + ("k" if keep else ""), fi.name, node, mi, fi.cls, fi.parent, list(fi.decorators))
         self._flat[key] = ff
         return ff
+
+    def _unroll_reflection(self, fi: FuncInfo, prefix, body) -> None:
+        """``all(getattr(a, n) == getattr(b, n) for n in NAMES)`` with NAMES a
+        tuple of string literals known at this call (a display, a class-level
+        or module-level constant) is the conjunction spelt out with plain
+        attribute accesses - the table-driven form of a hand-written chain of
+        ``and`` clauses.  Likewise ``any`` / ``or``.  Only when every use of
+        the loop variable is the name argument of a two-argument getattr()."""
+        bound = {
+            pa.targets[0].id: pa.value for pa in prefix
+            if isinstance(pa, ast.Assign) and len(pa.targets) == 1 and isinstance(pa.targets[0], ast.Name)
+        }
+
+        def names_of(it, depth=0):
+            if depth > 3:
+                return None
+            if isinstance(it, (ast.Tuple, ast.List)) and it.elts and all(isinstance(e, ast.Constant) and isinstance(e.value, str) for e in it.elts):
+                return [e.value for e in it.elts]
+            if isinstance(it, ast.Name):
+                if it.id in bound:
+                    return names_of(bound[it.id], depth + 1)
+                v = fi.module.assigns.get(it.id)
+                return names_of(v, depth + 1) if v is not None else None
+            if isinstance(it, ast.Attribute) and isinstance(it.value, ast.Name) and fi.cls is not None:
+                if it.value.id in (fi.params[:1] or ["self"]) or it.value.id in ("cls", fi.cls.name):
+                    v = self.ctx.repo.class_attr(fi.cls, it.attr)
+                    return names_of(v, depth + 1) if v is not None else None
+            return None
+
+        class Unroll(ast.NodeTransformer):
+            def visit_Call(self, c):
+                self.generic_visit(c)
+                if not (isinstance(c.func, ast.Name) and c.func.id in ("all", "any") and len(c.args) == 1 and not c.keywords
+                        and isinstance(c.args[0], (ast.GeneratorExp, ast.ListComp))):
+                    return c
+                g = c.args[0]
+                if len(g.generators) != 1 or g.generators[0].ifs or not isinstance(g.generators[0].target, ast.Name):
+                    return c
+                var = g.generators[0].target.id
+                names = names_of(g.generators[0].iter)
+                if not names:
+                    return c
+                uses = [x for x in ast.walk(g.elt) if isinstance(x, ast.Name) and x.id == var]
+                gets = [
+                    x for x in ast.walk(g.elt)
+                    if isinstance(x, ast.Call) and isinstance(x.func, ast.Name) and x.func.id == "getattr" and len(x.args) == 2
+                    and isinstance(x.args[1], ast.Name) and x.args[1].id == var
+                ]
+                if not uses or len(uses) != len(gets):
+                    return c
+                terms = []
+                for nm in names:
+                    class G(ast.NodeTransformer):
+                        def visit_Call(self, x):
+                            self.generic_visit(x)
+                            if isinstance(x.func, ast.Name) and x.func.id == "getattr" and len(x.args) == 2 and isinstance(x.args[1], ast.Name) and x.args[1].id == var:
+                                return ast.copy_location(ast.Attribute(value=x.args[0], attr=nm, ctx=ast.Load()), x)
+                            return x
+                    terms.append(G().visit(copy.deepcopy(g.elt)))
+                if len(terms) == 1:
+                    return ast.copy_location(terms[0], c)
+                return ast.copy_location(ast.BoolOp(op=ast.And() if c.func.id == "all" else ast.Or(), values=terms), c)
+
+        for i, st in enumerate(body):
+            body[i] = ast.fix_missing_locations(Unroll().visit(st))
+
+    @staticmethod
+    def _specialise_new_params(fi: FuncInfo, node) -> None:
+        """A callable of the pinned public surface that has since gained a
+        parameter with a literal default (`add_disjunctive_edges(graph,
+        schedule=None)`): every call the pinned tree knows leaves it at the
+        default, so the flattened form - what the rules judge - is the function
+        with that parameter fixed at its default and the decided branches
+        pruned.  What the new argument does is new API surface."""
+        from .baseline_api import BASELINE_PARAMS
+
+        if fi.parent is not None:
+            return
+        key = (fi.cls.name + "." if fi.cls is not None else "") + fi.name
+        bp = BASELINE_PARAMS.get(key)
+        if bp is None:
+            return
+        a = node.args
+        pos = a.posonlyargs + a.args
+        pairs = list(zip(pos[len(pos) - len(a.defaults):], a.defaults)) + [(k, d) for k, d in zip(a.kwonlyargs, a.kw_defaults) if d is not None]
+        stored = {x.id for x in ast.walk(node) if isinstance(x, ast.Name) and isinstance(x.ctx, (ast.Store, ast.Del))}
+        changed = False
+        for p_, d in pairs:
+            if p_.arg in bp or not isinstance(d, ast.Constant) or p_.arg in stored:
+                continue
+            sub = _SubstName(p_.arg, d)
+            node.body = [sub.visit(st) for st in node.body]
+            changed = True
+        if changed:
+            node.body = _prune_constant_ifs(node.body) or [ast.copy_location(ast.Pass(), node)]
 
     def _reaching_def(self, fi: FuncInfo, use: ast.Name):
         """The value of the plain assignment ``name = value`` that certainly
